@@ -240,6 +240,9 @@ def corrupt_container(leaves, corruption, *, flags=False, stackable=False, all_l
             out.append((f"every leaf: {label}", [v[j][1] for v in per_leaf]))
     if corruption == "wrong_tree":
         out.append(("one element short", list(leaves[:-1])))
+        if all_leaves:  # containers that must match the Taylor coefficients in LENGTH as well
+            out.append(("a single element (a container length that would broadcast)", [leaves[0]]))
+            out.append(("one element too many", list(leaves) + [leaves[-1]]))
     if corruption == "wrong_type" and stackable:
         out.insert(0, ("stacked array instead of a list", jnp.stack(leaves)))
     return out
@@ -454,9 +457,28 @@ def _error_estimate_thunks(entry, field, corruption, fact):
 
         return thunk
 
+    def make_scalar(lift_by):
+        """the same mismatch on a ONE-dimensional state (shape (1,)) with four Taylor coefficients"""
+
+        def thunk():
+            vf0 = probdiffeq.ode(lambda u, /, *, t: u * (1.0 - u))
+            u0 = jnp.asarray([0.3])
+            tc, _ = probdiffeq.jetexpand_ode_padded_scan(num=3)(vf0, (u0,), t=0.0)
+            vf = vf0 if lift_by is None else vf0.jet_lift(lift_by=lift_by)
+            c = ssm.constraint_ode_ts0(vf)
+            prior = ssm.prior_wiener_integrated([jnp.asarray(x) for x in tc])
+            solver = probdiffeq.solver(strategy=probdiffeq.strategy_filter(), constraint=c)
+            error = probdiffeq.error_residual_std(constraint=c)
+            solve = ivpsolve.solve_adaptive_terminal_values(solver=solver, error=error)
+            sol = solve(prior, t0=0.0, t1=0.2, dt0=0.1, atol=1e-2, rtol=1e-2)
+            return [sol.u.mean, sol.u.std]
+
+        return thunk
+
     if corruption is None:
-        return [("valid", make(None))]
-    return [("jet-lifted ODE (lift_by=1): two constraint rows per state entry", make(1)), ("jet-lifted ODE (lift_by=2)", make(2))]
+        return [("valid", make(None)), ("valid, scalar state", make_scalar(None))]
+    return [("jet-lifted ODE (lift_by=1): two constraint rows per state entry", make(1)), ("jet-lifted ODE (lift_by=2)", make(2)),
+            ("scalar state, jet-lifted ODE (lift_by=1)", make_scalar(1)), ("scalar state, jet-lifted ODE (lift_by=2)", make_scalar(2))]
 
 
 def _ensemble_thunks(entry, field, corruption, fact):
